@@ -4,7 +4,7 @@
      background()                       one watcher goroutine per pool id (lines 185-249)
      handleSessionManagerHotRestart     swap of sm.pools[id], parking in sm.reservePools
      checkHotRestart                    completion / time-out of the client side of a hot restart
-     Close                              cancelFunc, wg.Wait, pools[i].close()
+     Close                              cancelFunc, wg.Wait, pools[i].close(), parked pools closed
      streamPool.getOrOpenStream         what GetStream does on the chosen pool
 
    Pool OBJECTS have identity (the watcher keeps the *streamPool it loaded and later stores the
@@ -97,7 +97,11 @@ Definition r_enabled (s : rstate) (ev : revent) : bool :=
                      match w_pc (watcher_of s id) with WWait => true | _ => false end
   | Compare id _ => in_range s id && match w_pc (watcher_of s id) with WCompare => true | _ => false end
   | SessionLost o => obj_alive s o
-  | HREvent i _ _ => (i <? length (pools s))%nat
+  | HREvent i _ _ =>
+      (* the event arrives on a live session whose sessionID is i: the current one or the parked one *)
+      (i <? length (pools s))%nat &&
+      (obj_alive s (pool_of s i) ||
+       match nth_error (reserve s) i with Some (Some o) => obj_alive s o | _ => false end)
   | HRTick | HRTimeout => r_state s =? st_hr
   | CloseBegin => negb (closed s)
   | CloseEnd => closed s && forallb (fun w => match w_pc w with WExit => true | _ => false end) (watchers s)
@@ -138,8 +142,8 @@ Definition r_apply (s : rstate) (ev : revent) : rstate :=
   | TimerFires id => set_watcher s id {| w_pc := WCompare; w_pool := w_pool (watcher_of s id) |}
   | Compare id ok =>
       let w := watcher_of s id in
-      if negb (obj_epoch s (pool_of s id) =? obj_epoch s (w_pool w)) then
-        (* sessionHadChangedByHotrestart *)
+      if negb (pool_of s id =? w_pool w)%nat then
+        (* sessionHadChangedByHotrestart := sm.pools[id] != pool  (identity of the pool object) *)
         set_watcher s id {| w_pc := WTop; w_pool := w_pool w |}
       else if negb ok then set_watcher s id {| w_pc := WWait; w_pool := w_pool w |}   (* continue *)
       else
@@ -169,8 +173,10 @@ Definition r_apply (s : rstate) (ev : revent) : rstate :=
       {| objs := objs s; pools := pools s; reserve := reserve s; r_state := r_state s; r_epoch := r_epoch s;
          closed := true; watchers := watchers s; created := created s; bad := bad s |}
   | CloseEnd =>
-      (* after wg.Wait(): sm.pools[i].close() for every i *)
-      {| objs := kill_reserved (map Some (pools s)) (objs s); pools := pools s; reserve := reserve s;
+      (* after wg.Wait(): sm.pools[i].close() for every i, then every parked pool is closed and
+         sm.reservePools = nil *)
+      {| objs := kill_reserved (reserve s) (kill_reserved (map Some (pools s)) (objs s)); pools := pools s;
+         reserve := repeat None (length (pools s));
          r_state := r_state s; r_epoch := r_epoch s; closed := closed s; watchers := watchers s;
          created := created s; bad := bad s |}
   | GetStreamR _ => s
